@@ -18,7 +18,8 @@ MANIFEST = {
             'it also writes only inside a validity test, under a branch guarded by one, or after writing it in the same call. Every field SLE._setup computes from '
             "this call's solute or flows is stored on every normal path; the SLE clamp bound is exactly N/(A+N). Nothing computed from one liquid before the top-"
             'chemical relabelling is read after it unless it is swapped along; the equilibrium chemicals and their flows are gathered at full-tuple positions from '
-            'full-length sequences only. Equal activities, scaling and numerical agreement of cached and uncached results are not decided.',
+            'full-length sequences only; the position of the top chemical is never tested by truthiness. Equal activities, scaling and numerical agreement of '
+            'cached and uncached results are not decided.',
 }
 
 LLEF = 'thermosteam/equilibrium/lle.py'
@@ -221,6 +222,7 @@ def run(ctx):
                 d3.fail('LLE.__call__', 'partial-swap', 'inside the top-chemical block only one liquid is re-assigned: %s' % src(node), f, node)
     if len(swaps) < 2 or len(pair & written) < 2:
         d3.fail('LLE.__call__', 'no-swap', 'top-chemical relabelling (simultaneous swap of the two liquids that are written to l and L) not found', f, f.node)
+    position_truthiness(ctx, d3, f)
     # the swap is decided by comparing the top chemical's mass fraction in the two liquids
     guards = [x for x in walk_no_nested(f.node) if isinstance(x, ast.If) and isinstance(x.test, ast.Compare) and isinstance(x.test.ops[0], ast.Lt)
               and any(b in swaps for b in x.body)]
@@ -305,6 +307,54 @@ def _blocks(fn):
             if isinstance(b, list) and b and isinstance(b[0], ast.stmt):
                 out.append(b)
     return out
+
+
+def position_truthiness(ctx, d3, f):
+    """The top-chemical lookup yields a position among the liquid-liquid chemicals, or nothing.  Position 0 is a valid answer, so "found"
+    must be tested against None (or by exception), never by truthiness.  Instances: every name of LLE.__call__ (normal form, helpers
+    spliced in) that is bound to an element of a dict whose values are the counter of an enumerate() -- and is later used as a subscript."""
+    fn = ctx.prog.normal_form(f)
+    posdicts = set()
+    for n in walk_no_nested(fn):
+        if isinstance(n, ast.Assign) and len(n.targets) == 1 and isinstance(n.targets[0], ast.Name) and isinstance(n.value, ast.DictComp) \
+                and len(n.value.generators) == 1:
+            g = n.value.generators[0]
+            if isinstance(g.iter, ast.Call) and src(g.iter.func) == 'enumerate' and isinstance(g.target, ast.Tuple) and len(g.target.elts) == 2 \
+                    and isinstance(g.target.elts[0], ast.Name) and isinstance(n.value.value, ast.Name) and n.value.value.id == g.target.elts[0].id:
+                posdicts.add(n.targets[0].id)
+    positions = set()
+    for n in walk_no_nested(fn):
+        if isinstance(n, ast.Assign) and len(n.targets) == 1 and isinstance(n.targets[0], ast.Name):
+            v = n.value
+            if isinstance(v, ast.Subscript) and isinstance(v.value, ast.Name) and v.value.id in posdicts:
+                positions.add(n.targets[0].id)
+            if isinstance(v, ast.Call) and isinstance(v.func, ast.Attribute) and v.func.attr == 'get' and isinstance(v.func.value, ast.Name) \
+                    and v.func.value.id in posdicts:
+                positions.add(n.targets[0].id)
+    used_as_index = {x.slice.id for x in ast.walk(fn) if isinstance(x, ast.Subscript) and isinstance(x.slice, ast.Name)}
+    n_inst = 0
+    for name in sorted(positions & used_as_index):
+        bad = None
+
+        def truthy_uses(t):
+            if isinstance(t, ast.Name) and t.id == name:
+                return [t]
+            if isinstance(t, ast.UnaryOp) and isinstance(t.op, ast.Not):
+                return truthy_uses(t.operand)
+            if isinstance(t, ast.BoolOp):
+                return [x for v in t.values for x in truthy_uses(v)]
+            return []
+        tests = [x.test for x in ast.walk(fn) if isinstance(x, (ast.If, ast.While, ast.IfExp))]
+        for t in tests:
+            if truthy_uses(t):
+                bad = t
+        n_inst += 1
+        if bad is None:
+            d3.ok('LLE.__call__', 'the position %s of the top chemical is never tested by truthiness (position 0 is a valid answer)' % name, f)
+        else:
+            d3.fail('LLE.__call__', 'position-tested-by-truthiness', 'the position %s of the top chemical (an element of a dict of enumerate() counters, or None) is tested '
+                    'by truthiness in `%s`: position 0 -- the first liquid-liquid chemical -- counts as "not found" and the relabelling is skipped' % (name, src(bad)), f, bad)
+    return n_inst
 
 
 def _stale_after_relabel(f, swap):
